@@ -172,6 +172,44 @@ FAMILIES = {
     'res_deflate_garbage_chunks': ('res', {}, body_chunked_each(RS + b'Content-Encoding: deflate\r\n', b'garbage %d ')),
 }
 
+# every header whose value the library interprets x a dictionary of value tokens (the searches and tokenisers behind these
+# headers each have their own loops: nocase/NUL-skipping searches, comma and semicolon lists, quoted strings, digits)
+INTERPRETED = {'req': [b'Host', b'Content-Length', b'Transfer-Encoding', b'Content-Encoding', b'Content-Type', b'Cookie', b'Authorization', b'Expect', b'Connection', b'Upgrade'],
+               'res': [b'Content-Length', b'Transfer-Encoding', b'Content-Encoding', b'Content-Type', b'Connection', b'Upgrade', b'Location', b'Set-Cookie']}
+VALUE_UNITS = {'a': b'a', 'sp': b' ', 'tab': b'\t', 'nul': b'\0', 'comma': b',', 'semi': b';', 'eq': b'=', 'quote': b'"', 'pct': b'%', 'dot': b'.', 'colon': b':', 'slash': b'/',
+               'a_nul': b'a\0', 'comma_sp': b', ', 'semi_sp': b'; ', 'chunked_comma': b'chunked,', 'gzip_sp': b'gzip ', 'esc_quote': b'\\"', 'digit': b'7'}
+HV_FAMILIES = []
+for _side, _names in INTERPRETED.items():
+    for _h in _names:
+        for _un, _u in VALUE_UNITS.items():
+            for _sfx_name, _sfx in (('', b''), ('_x', b'x')):
+                _name = 'hv_%s_%s_%s%s' % (_side, _h.decode().lower(), _un, _sfx_name)
+                if _side == 'req':
+                    FAMILIES[_name] = ('req', dict(BIG, REQ_DECOMP=1, URLENC_PARSER=1, MULTIPART_PARSER=1), pump(b'POST / HTTP/1.1\r\n' + (b'' if _h == b'Host' else b'Host: h\r\n') + _h + b': ', _u, _sfx + b'\r\n\r\n'))
+                else:
+                    FAMILIES[_name] = ('res', dict(BIG), pump(RS + _h + b': ', _u, _sfx + b'\r\n\r\n'))
+                HV_FAMILIES.append(_name)
+
+URI_PREFIXES = {'path': b'/', 'query': b'/?', 'frag': b'/#', 'scheme': b'', 'auth': b'http://', 'userinfo': b'http://u:p', 'port': b'http://h:', 'abs_path': b'http://h/', 'abs_query': b'http://h/?x='}
+URI_UNITS = {'a': b'a', 'slash': b'/', 'dot': b'.', 'dotdot': b'/..', 'pct': b'%', 'pct2': b'%2', 'pctu': b'%u', 'pct_enc': b'%2e', 'q': b'?', 'hash': b'#', 'amp': b'&', 'eq': b'=', 'plus': b'+',
+             'colon': b':', 'at': b'@', 'lbr': b'[', 'rbr': b']', 'semi': b';', 'bslash': b'\\', 'utf8': b'\xc3\xa9', 'badutf8': b'\xc3', 'hi': b'\xff', 'digit': b'7'}
+for _pn, _p in URI_PREFIXES.items():
+    for _un, _u in URI_UNITS.items():
+        _name = 'hv_uri_%s_%s' % (_pn, _un)
+        FAMILIES[_name] = ('req', dict(BIG, URLENC_PARSER=1, PERSONALITY=2), pump(b'GET ' + _p, _u, b' HTTP/1.1\r\nHost: h\r\n\r\n'))
+        HV_FAMILIES.append(_name)
+CD_UNITS = {'a': b'a', 'semi': b';', 'eq': b'=', 'quote': b'"', 'esc_quote': b'\\"', 'bslash': b'\\', 'sp': b' ', 'semi_sp': b'; ', 'name_eq': b'name=', 'param': b'; x=y', 'nul': b'\0'}
+for _pn, _p in {'value': b'form-data; name="n', 'params': b'form-data', 'filename': b'form-data; name="f"; filename="'}.items():
+    for _un, _u in CD_UNITS.items():
+        _name = 'hv_mpcd_%s_%s' % (_pn, _un)
+        FAMILIES[_name] = ('req', {'MULTIPART_PARSER': 1}, body_cl(MPH, b'--BB\r\nContent-Disposition: ' + _p, _u, b'\r\n\r\nv\r\n--BB--\r\n'))
+        HV_FAMILIES.append(_name)
+for _sn, _sp in {'basic': b'Basic ', 'digest': b'Digest ', 'digest_user': b'Digest username="', 'bearer': b'Bearer '}.items():
+    for _un in ('a', 'sp', 'comma', 'eq', 'quote', 'esc_quote', 'nul', 'comma_sp', 'digit'):
+        _name = 'hv_auth_%s_%s' % (_sn, _un)
+        FAMILIES[_name] = ('req', dict(BIG), pump(RQ + b'Authorization: ' + _sp, VALUE_UNITS[_un], b'\r\n\r\n'))
+        HV_FAMILIES.append(_name)
+
 ONE_TX_SUFFIX = ('req_pipelined', 'req_pipelined_keep', 'req_http09_junk')
 
 
@@ -212,7 +250,7 @@ def run(tier):
     ladder = [256, 512, 1024, 2048, 4096] if tier == 'quick' else [256, 512, 1024, 2048, 4096, 8192, 16384, 32768, 65536]
     jobs = []
     for name in sorted(FAMILIES):
-        for delivery in ('whole', 'bytes', 'kilo'):
+        for delivery in (('whole', 'kilo') if name.startswith('hv_') else ('whole', 'bytes', 'kilo')):
             lad = ladder if delivery != 'bytes' else ladder[:5 if tier == 'quick' else 7]
             jobs.append((name, delivery, lad))
     nsh = fw.NPROC
@@ -270,4 +308,4 @@ def run(tier):
                    'memchr/memcmp/realloc: deterministic, no timing. The allowance of a run is the bytes offered plus, summed over the data calls, the bytes the parser had already set aside (in_buf/out_buf/pending folded header) when the call was made. Verdict: the marginal cost per allowed byte between consecutive ladder points (constant for linear work, doubling for quadratic work; fixed costs cancel) grows >= 1.3x on each of the two largest doublings.' % (len(FAMILIES), ladder),
            'samples': [{'family': n, 'stream_k2': make_stream(FAMILIES[n], 2).decode('latin-1')[:400]} for n in sorted(FAMILIES)[:8]], 'ladder': ladder, 'families': table}
     return v.finish(cov, assumptions=['harness callbacks are not instrumented; their memcpy traffic (linear) is included in the byte count', 'the maximum work/byte seen by a coverage-guided fuzzer is not part of this check'],
-                    min_obs={'families': (len(costs), len(FAMILIES) * 3 - 2)})
+                    min_obs={'families': (len(costs), len(FAMILIES) * 3 - len(HV_FAMILIES) - 2)})
